@@ -236,8 +236,9 @@ def next_token_rows(F):
                 a["layout_result"] = val(v)
             elif t[0] == "discr" and isinstance(t[1], tuple) and t[1][0] == "vfield" and has_call(t[1], "parse_with_context"):
                 a["layout_some"] = val(v)
-            elif t[0] == "bin" and t[1] == "Gt" and has_call(t[2], "Input::len") and t[3] == ("const", 0):
-                a["layout_len>0"] = v
+            elif _nonzero_len(t, "Input::len") is not None and v in (0, 1):
+                # layout.len() > 0 in any spelling: 0 < len, len != 0, !(len == 0), len >= 1, !is_empty()
+                a["layout_len>0"] = v if _nonzero_len(t, "Input::len") else 1 - v
             elif t[0] == "field" and t[2] == "partial_parse":
                 a["partial_parse"] = v
             elif is_call(t, "contains"):
@@ -264,6 +265,21 @@ def next_token_rows(F):
             out = "retry"
         rows.append((a, out, p))
     return f, rows
+
+
+def _nonzero_len(t, lencall):
+    """True if the comparison term t says `len > 0` when it is true, False if it says `len == 0` when true, None otherwise"""
+    if not (isinstance(t, tuple) and t[0] == "bin"):
+        if is_call(t, "::is_empty"):
+            return False
+        return None
+    op, a, b = t[1], t[2], t[3]
+    flip = {"Lt": "Gt", "Gt": "Lt", "Le": "Ge", "Ge": "Le", "Eq": "Eq", "Ne": "Ne"}
+    if has_call(b, lencall) and a[0] == "const":
+        op, a, b = flip.get(op), b, a
+    if not (has_call(a, lencall) and b[0] == "const" and isinstance(b[1], int)):
+        return None
+    return {("Gt", 0): True, ("Ne", 0): True, ("Ge", 1): True, ("Eq", 0): False, ("Le", 0): False, ("Lt", 1): False}.get((op, b[1]))
 
 
 def next_token_spec(a):
